@@ -241,6 +241,7 @@ type netSim struct {
 	clientSeq          uint64
 	onChainResubmitted map[util.Uint256]bool
 	conflictVictims    map[util.Uint256][]util.Uint256 // tx named by Conflicts attributes -> the naming transactions
+	namers             map[util.Uint256]bool
 }
 
 func (s *netSim) now() time.Duration { return time.Since(s.start) }
@@ -495,6 +496,17 @@ func (s *netSim) submitTx(v *vnode, tx *transaction.Transaction) {
 	// before the transaction itself is handed to the service: with both channels ready the loop's select would
 	// choose by the runtime's random number, which no plan controls
 	sim.Wait()
+	if err != nil && s.namers[tx.Hash()] {
+		s.r.log.Addf("t=%dms node %d (height %d) refuses a naming transaction (sender balance %s, fees %d+%d): %s", s.now()/time.Millisecond, v.idx, v.n.BC.BlockHeight(), v.n.BC.GetUtilityTokenBalance(tx.Sender(), util.Uint160{}), tx.SystemFee, tx.NetworkFee, errClass(err))
+	}
+	if len(s.conflictVictims[tx.Hash()]) > 1 {
+		var hs []string
+		for _, namer := range s.conflictVictims[tx.Hash()] {
+			_, hgt, gerr := v.n.BC.GetTransaction(namer)
+			hs = append(hs, fmt.Sprintf("%d/%v", int32(hgt), gerr == nil))
+		}
+		s.r.log.Addf("t=%dms node %d (height %d, MTB %d) gets the doubly named victim (VUB %d); namers at %v -> pooled=%v", s.now()/time.Millisecond, v.idx, v.n.BC.BlockHeight(), v.n.BC.GetMaxTraceableBlocks(), tx.ValidUntilBlock, hs, err == nil)
+	}
 	if namerOnOwnChain && staleNamer {
 		s.r.out.Probes["conflict_victim_with_untraceable_and_traceable_namer"]++
 	}
@@ -652,7 +664,7 @@ func (r *run) runNet() {
 		sim.Harnessf("network plan missing")
 	}
 	s := &netSim{r: r, np: np, canon: map[uint32]util.Uint256{}, croot: map[uint32]string{}, defective: map[util.Uint256]string{}, defectFees: map[util.Uint256][2]int64{},
-		goodAt: map[util.Uint256]time.Duration{}, seenTx: map[util.Uint256][]byte{}, onChainResubmitted: map[util.Uint256]bool{}, conflictVictims: map[util.Uint256][]util.Uint256{}}
+		goodAt: map[util.Uint256]time.Duration{}, seenTx: map[util.Uint256][]byte{}, onChainResubmitted: map[util.Uint256]bool{}, conflictVictims: map[util.Uint256][]util.Uint256{}, namers: map[util.Uint256]bool{}}
 	// entropy
 	old := crand.Reader
 	dr := &detRand{}
